@@ -225,6 +225,33 @@ pub fn run(ctx: &mut Ctx) {
             judge(ctx, &op);
         }
     }
+    // long alternative lists (17..300 alternatives, some 3000), written out and as results
+    ctx.stratum("L-long-alternative-lists", false);
+    let n = ctx.tier.n(60, 2_000);
+    for i in 0..n {
+        if !ctx.take() {
+            continue;
+        }
+        let mut r = Rng::for_case(ctx.seed, "C11-L", i);
+        if let Some(a) = long_alt_operand_sized(&mut r, &tiv, 1) {
+            let b = long_partner(&mut r, &a, &tiv);
+            let done = on_small_stack(|| {
+                judge(ctx, &a);
+                if let Some(b) = &b {
+                    for res in [guarded(|| a.range.intersect(&b.range)), guarded(|| a.range.difference(&b.range))] {
+                        if let Ok(Some(x)) = res {
+                            if let Ok(op) = operand_from_range(x, &format!("op({}, {})", a.text, b.text)) {
+                                judge(ctx, &op);
+                            }
+                        }
+                    }
+                }
+            });
+            if done.is_none() {
+                ctx.inconclusive("small-stack thread ended without a result");
+            }
+        }
+    }
     ctx.stratum("S-results-of-set-operations", false);
     let n = ctx.tier.n(20_000, 2_000_000);
     for i in 0..n {
